@@ -44,6 +44,9 @@ impl RegistryCore {
     fn register(&mut self, c: Box<dyn Collector>) -> Result<()> {
         let mut desc_id_set = HashSet::new();
         let mut collector_id: u64 = 0;
+        // Dimension hashes of this collector, committed only if the whole
+        // registration succeeds.
+        let mut new_dim_hashes: HashMap<String, u64> = HashMap::new();
 
         // A label of the collector must not collide with a common label of
         // the registry, otherwise gathered samples carry that name twice.
@@ -67,7 +70,11 @@ impl RegistryCore {
                 return Err(Error::AlreadyReg);
             }
 
-            if let Some(hash) = self.dim_hashes_by_name.get(&desc.fq_name) {
+            if let Some(hash) = self
+                .dim_hashes_by_name
+                .get(&desc.fq_name)
+                .or_else(|| new_dim_hashes.get(&desc.fq_name))
+            {
                 if *hash != desc.dim_hash {
                     return Err(Error::Msg(format!(
                         "a previously registered descriptor with the \
@@ -79,8 +86,7 @@ impl RegistryCore {
                 }
             }
 
-            self.dim_hashes_by_name
-                .insert(desc.fq_name.clone(), desc.dim_hash);
+            new_dim_hashes.insert(desc.fq_name.clone(), desc.dim_hash);
 
             // If it is not a duplicate desc in this collector, add it to
             // the collector_id.
@@ -102,6 +108,7 @@ impl RegistryCore {
         match self.collectors_by_id.entry(collector_id) {
             HEntry::Vacant(vc) => {
                 self.desc_ids.extend(desc_id_set);
+                self.dim_hashes_by_name.extend(new_dim_hashes);
                 vc.insert(c);
                 Ok(())
             }
